@@ -1,6 +1,7 @@
 """C25 — constraint_to_si never cuts off a satisfying assignment.
-prove (Lean: pre-image lemmas on wrapped intervals, bound bookkeeping) -> oracle on the real balancer: every
-satisfying assignment of every generated constraint is enumerated (width <= 8, 1..2 variables)."""
+prove (Lean: model of Balancer._doit on one comparison with per-step, loop, handler and composite soundness theorems; pre-image
+lemmas on wrapped intervals) -> correspond (the model vs the real constraint_to_si on the generated constraints, exact) ->
+oracle on the real balancer: every satisfying assignment of every generated constraint is enumerated (width <= 8, 1..2 variables)."""
 import collections, itertools, logging, pickle
 
 from lib import vsa, vsa_expr as vx, vsa_balancer as vb
@@ -12,7 +13,7 @@ THEOREMS = [P + n for n in ("C25_preimage_add", "C25_pair_exact", "C25_lone_boun
                             "C25_extract_eq_not_pre", "C25_extract_ule_not_pre", "C25_shl_uge", "C25_shl_ule_not_pre", "C25_combine_bounds")] + \
            [L + n for n in ("Win_preimage_add", "Win_rot", "cd_rot", "add_ule_pair", "add_uge_pair", "balAddPair_exact")] + \
            [P + n for n in ("C25_align_sound", "C25_step_holds", "C25_add_rot", "C25_sub_rot", "C25_balance_holds", "C25_balance_rot",
-                            "C25_handle_sound", "C25_balancer_sound", "C25_replacement_interval", "C25_mixed_path_cuts_off_model")]
+                            "C25_handle_sound", "C25_balancer_sound", "C25_pair_sound", "C25_replacement_interval", "C25_mixed_path_cuts_off_model")]
 TESTS = [P + "test_pair_example", P + "test_covered_example"]
 
 
@@ -85,7 +86,7 @@ def balancer_correspondence(ctx, cases):
     result depends on the construction-time simplifiers of Extract / == / != (two real runs disagree)."""
     import claripy
     st = collections.Counter()
-    lines, wants, descs = [], [], []
+    lines, wants, descs, ops = [], [], [], []
     for c, xs, annos in cases:
         try:
             e = claripy.excavate_ite(c)
@@ -110,10 +111,14 @@ def balancer_correspondence(ctx, cases):
         lines.append("balance %s ; %s" % (vb.fmt_annos(xs, annos), " ".join(toks)))
         wants.append(r1)
         descs.append(str(c))
+        ops.append((toks[1], toks[2] == "bin" and toks[3] in ("add", "sub") or toks[2] == "const" and "bin add" in " ".join(toks) or
+                    toks[2] == "const" and "bin sub" in " ".join(toks)))
     outs = ctx.driver(lines, exe="driver_vsa") if lines else []
     bad = None
     paths = collections.Counter()
-    for o, want, d, ln in zip(outs, wants, descs, lines):
+    thm = collections.Counter()
+    classes = {}
+    for o, want, d, ln, (op, _) in zip(outs, wants, descs, lines, ops):
         got, info = vb.model_result(o)
         if got[0] == "unmodelled":
             st["skipped:model-" + got[1]] += 1
@@ -124,11 +129,15 @@ def balancer_correspondence(ctx, cases):
             st["agree:" + (want if isinstance(want, str) else want[0])] += 1
             if info:
                 paths[" | ".join(x.strip().split(".")[0] or "none" for x in info.split(" | "))] += 1
+                cls = theorem_class(op, info)
+                thm[cls] += 1
+                classes[d] = cls
         else:
             st["DISAGREE"] += 1
             if bad is None:
                 bad = "%s   [%s]   model=%s real=%s" % (d, ln, o, want)
     ctx.cov["balancer_correspondence"] = dict(st)
+    ctx.cov["balancer_theorem_coverage(of the compared, satisfiable inputs)"] = dict(thm)
     ctx.cov["balancer_paths(main | assumption: m = constant moved across +/-, p = other arm)"] = dict(paths)
     skipped = sum(v for k, v in st.items() if k.startswith("skipped:model-") or k.startswith("skipped:depends"))
     if bad:
@@ -136,7 +145,25 @@ def balancer_correspondence(ctx, cases):
     elif st["compared"] and skipped * 5 > st["compared"]:
         # the fragment is meant to cover the generator: a model that declares most inputs unmodelled ties nothing
         ctx.tie_broken("corr:balancer", "the model skips %d inputs for %d compared" % (skipped, st["compared"]))
-    return st
+    return classes
+
+
+def theorem_class(op, info):
+    """which composite theorem of Props/C25.lean speaks about this input (from the path information the model prints:
+    per path the flags m = a constant was moved across +/-, p = another arm was used, then the final left side)"""
+    parts = [x.strip() for x in info.split(" | ")]
+    flags = [x.split(".")[0] for x in parts]
+    finals = [x.split(".", 1)[1] if "." in x else None for x in parts]
+    if op in ("SLT", "SLE", "SGT", "SGE"):
+        return "signed-comparison(not covered by a theorem)"
+    if op in ("eq", "ne"):
+        return "C25_balancer_sound(==, != on every path)"
+    mods = ["m" in f for f in flags]
+    if not any(mods):
+        return "C25_balancer_sound(no constant moved across +/-)"
+    if flags[0] == "m" and flags[1] == "m" and finals[0] == finals[1]:
+        return "C25_pair_sound(both paths only +/-, same expression)"
+    return "mixed-paths(guard of the theorems fails: the class of the open finding)"
 
 CMPS = ["ULT", "ULE", "UGT", "UGE", "SLT", "SLE", "SGT", "SGE", "eq", "ne"]
 
@@ -535,8 +562,16 @@ def run(ctx):
             if r:
                 fails[r[0]].append((len(str(c)), r[1], c, cxs, cas))
     # the tie of the Lean balancer model: quick compares a fixed share of the stream (every layered case, every second random one)
-    corr_cases = [t for i, t in enumerate(corr_cases) if i % ctx.pick(2, 4) == 0 or str(t[1][0].args[0]).startswith("l_")]
-    balancer_correspondence(ctx, corr_cases)
+    corr_cases = [t for i, t in enumerate(corr_cases) if i % ctx.pick(3, 4) == 0 or (str(t[1][0].args[0]).startswith("l_") and i % 2 == 0)]
+    classes = balancer_correspondence(ctx, corr_cases)
+    # consistency of theorems and oracle: an input on which the enumerating oracle finds a cut-off model must lie outside the guards
+    # of the composite theorems (the model agrees with the real code there, so a covered failure would contradict a proof)
+    for sig, lst in sorted(fails.items()):
+        for _, what, c, _, _ in lst:
+            cls = classes.get(str(c))
+            if cls and cls.startswith("C25_") and "cuts-off-model" in sig:
+                ctx.tie_broken("corr:balancer-theorems", "%s is covered by %s but the oracle reports: %s" % (c, cls, what))
+                break
     for sig, lst in sorted(fails.items()):
         ln, what, c, xs, annos = min(lst, key=lambda t: (t[0], t[1]))
         ctx.violation(sig, what + "  [%d case(s)]" % len(lst), {
